@@ -4,3 +4,4 @@ pub mod gen;
 pub mod e1;
 pub mod e5;
 pub mod e2_store;
+pub mod e2_handler;
